@@ -611,9 +611,16 @@ class WsgiApplication(HttpBase):
 
             if charset is not None:
                 try:
-                    codecs.lookup(charset)
-                except LookupError:
+                    codec_info = codecs.lookup(charset)
+                except (LookupError, TypeError, ValueError):
+                    # TypeError, ValueError: not a string, embedded NUL
                     raise ValidationError(charset, "Unknown charset %r")
+
+                if not getattr(codec_info, '_is_text_encoding', True):
+                    # e.g. hex, rot13, zlib: bytes.decode() refuses these with
+                    # LookupError
+                    raise ValidationError(charset,
+                                             "%r is not a text encoding")
 
         return self.__wsgi_input_to_iterable(http_env), charset
 
